@@ -1,7 +1,7 @@
 import PyctrModel.Base.Run
 namespace Pyctr
 universe u
-variable {σ : Type u} {F : FileOps σ} {inv : σ → Prop} {abs : σ → AFile}
+variable {σ : Type} {F : FileOps σ} {inv : σ → Prop} {abs : σ → AFile}
 
 theorem isFile_step (hF : IsFile F inv abs) (s : σ) (h : inv s) (op : Op) :
     (F.step s op).1 = (AFile.ops.step (abs s) op).1 ∧
